@@ -534,4 +534,173 @@ theorem allSpreads_le_docSpreads : ∀ ds : List Definition, (allSpreads (fragDe
     simp only [fragDefs, spreadCountDefs]
     omega
 
+/-! ### Callback calls of one ast.Inspect pass, in tokens -/
+
+mutual
+theorem callsValue_le : ∀ v : Value, callsValue v ≤ 4 * v.stoks.length
+  | .var v => by simp [callsValue, callsName, Value.stoks, Variable.stoks, Name.stoks]
+  | .int _ _ => by simp [callsValue, Value.stoks]
+  | .float _ _ => by simp [callsValue, Value.stoks]
+  | .str _ _ => by simp [callsValue, Value.stoks]
+  | .bool _ _ => by simp [callsValue, Value.stoks]
+  | .null _ => by simp [callsValue, Value.stoks]
+  | .enum _ _ => by simp [callsValue, Value.stoks]
+  | .list vs o c => by
+    have := callsValues_le vs
+    simp only [callsValue, Value.stoks, List.length_cons, List.length_append, List.length_nil]
+    omega
+  | .obj fs o c => by
+    have := callsFields_le fs
+    simp only [callsValue, Value.stoks, List.length_cons, List.length_append, List.length_nil]
+    omega
+theorem callsValues_le : ∀ vs : List Value, callsValues vs ≤ 4 * (stoksValues vs).length
+  | [] => by simp [callsValues]
+  | v :: vs => by
+    have h1 := callsValue_le v
+    have h2 := callsValues_le vs
+    simp only [callsValues, stoksValues, List.length_append]
+    omega
+theorem callsFields_le : ∀ fs : List (Name × Value), callsFields fs ≤ 4 * (stoksFields fs).length
+  | [] => by simp [callsFields]
+  | (n, v) :: fs => by
+    have h1 := callsValue_le v
+    have h2 := callsFields_le fs
+    simp only [callsFields, callsName, stoksFields, Name.stoks, List.length_append, List.length_cons, List.length_nil]
+    omega
+end
+
+theorem callsArgs_le : ∀ as : List Argument, callsArgs as ≤ 4 * (stoksArgList as).length
+  | [] => by simp [callsArgs]
+  | a :: as => by
+    have h1 := callsValue_le a.value
+    have h2 := callsArgs_le as
+    simp only [callsArgs, callsName, stoksArgList, Argument.stoks, Name.stoks, List.length_append, List.length_cons, List.length_nil]
+    omega
+
+theorem stoksArgList_le_args (as : List Argument) : (stoksArgList as).length ≤ (stoksArgs as).length := by
+  unfold stoksArgs
+  split
+  · rename_i h
+    have : as = [] := by simpa using h
+    subst this; simp [stoksArgList]
+  · simp only [List.length_cons, List.length_append, List.length_nil]; omega
+
+theorem callsDirs_le : ∀ ds : List Directive, callsDirs ds ≤ 4 * (stoksDirs ds).length
+  | [] => by simp [callsDirs]
+  | d :: ds => by
+    have h1 := callsArgs_le d.args
+    have h2 := callsDirs_le ds
+    have h3 := stoksArgList_le_args d.args
+    simp only [callsDirs, callsName, stoksDirs, Directive.stoks, Name.stoks, List.length_append, List.length_cons, List.length_nil]
+    omega
+
+mutual
+theorem callsSel_le : ∀ s : Selection, callsSel s ≤ 4 * s.stoks.length
+  | .field none n args dirs none => by
+    have h1 := callsArgs_le args; have h2 := callsDirs_le dirs; have h3 := stoksArgList_le_args args
+    rw [stoks_field_none]
+    simp only [callsSel, callsName, optSelStoks, Name.stoks, List.length_append, List.length_cons, List.length_nil]
+    omega
+  | .field none n args dirs (some ss) => by
+    have h1 := callsArgs_le args; have h2 := callsDirs_le dirs; have h3 := stoksArgList_le_args args
+    have h4 := callsSet_le ss
+    rw [stoks_field_none]
+    simp only [callsSel, callsName, optSelStoks, Name.stoks, List.length_append, List.length_cons, List.length_nil]
+    omega
+  | .field (some a) n args dirs none => by
+    have h1 := callsArgs_le args; have h2 := callsDirs_le dirs; have h3 := stoksArgList_le_args args
+    rw [stoks_field_some]
+    simp only [callsSel, callsName, optSelStoks, Name.stoks, List.length_append, List.length_cons, List.length_nil]
+    omega
+  | .field (some a) n args dirs (some ss) => by
+    have h1 := callsArgs_le args; have h2 := callsDirs_le dirs; have h3 := stoksArgList_le_args args
+    have h4 := callsSet_le ss
+    rw [stoks_field_some]
+    simp only [callsSel, callsName, optSelStoks, Name.stoks, List.length_append, List.length_cons, List.length_nil]
+    omega
+  | .spread e n dirs => by
+    have h2 := callsDirs_le dirs
+    rw [stoks_spread]
+    simp only [callsSel, callsName, Name.stoks, List.length_append, List.length_cons, List.length_nil]
+    omega
+  | .inline e none dirs ss => by
+    have h2 := callsDirs_le dirs; have h4 := callsSet_le ss
+    rw [stoks_inline_none]
+    simp only [callsSel, List.length_append, List.length_cons]
+    omega
+  | .inline e (some n) dirs ss => by
+    have h2 := callsDirs_le dirs; have h4 := callsSet_le ss
+    rw [stoks_inline_some]
+    simp only [callsSel, callsName, stoksTypeCondition, Name.stoks, List.length_append, List.length_cons, List.length_nil]
+    omega
+theorem callsSet_le : ∀ s : SelSet, callsSet s ≤ 4 * s.stoks.length
+  | .mk sels o c => by
+    have := callsSels_le sels
+    rw [stoks_selSet]
+    simp only [callsSet, List.length_append, List.length_cons, List.length_nil]
+    omega
+theorem callsSels_le : ∀ ss : List Selection, callsSels ss ≤ 4 * (stoksSels ss).length
+  | [] => by simp [callsSels]
+  | s :: ss => by
+    have h1 := callsSel_le s
+    have h2 := callsSels_le ss
+    rw [stoksSels_cons]
+    simp only [callsSels, List.length_append]
+    omega
+end
+
+theorem varDefList_length_le : ∀ vs : List VarDef, vs.length ≤ (stoksVarDefList vs).length
+  | [] => by simp
+  | v :: vs => by
+    have := varDefList_length_le vs
+    simp only [stoksVarDefList, VarDef.stoks, Variable.stoks, List.length_append, List.length_cons]
+    omega
+
+theorem varDefs_length_le (vs : List VarDef) : vs.length ≤ (stoksVarDefs vs).length := by
+  unfold stoksVarDefs
+  split
+  · rename_i h
+    have : vs = [] := by simpa using h
+    subst this; simp
+  · have := varDefList_length_le vs
+    simp only [List.length_cons, List.length_append, List.length_nil]; omega
+
+/-- One ast.Inspect pass of `validate` over all definitions of a well-formed document calls the callback at
+    most four times per token. -/
+theorem docCalls_le : ∀ ds : List Definition, wfDefs ds = true → docCalls ds ≤ 4 * (stoksDefs ds).length
+  | [], _ => by simp [docCalls]
+  | .frag p n tc dirs s :: ds, h => by
+    simp only [wfDefs, Bool.and_eq_true] at h
+    have ih := docCalls_le ds h.2
+    have h2 := callsDirs_le dirs; have h4 := callsSet_le s
+    have e : stoksDefs (.frag p n tc dirs s :: ds) = (Definition.frag p n tc dirs s).stoks ++ stoksDefs ds := rfl
+    rw [e, stoks_frag]
+    simp only [docCalls, callsFragDef, callsName, stoksTypeCondition, Name.stoks, List.length_append, List.length_cons, List.length_nil]
+    omega
+  | .op none name vars dirs s :: ds, h => by
+    simp only [wfDefs, wfDefinition, Bool.and_eq_true, Option.isNone_iff_eq_none, List.isEmpty_iff] at h
+    obtain ⟨⟨⟨⟨rfl, rfl⟩, rfl⟩, _⟩, hds⟩ := h
+    have ih := docCalls_le ds hds
+    have h4 := callsSet_le s
+    have e : stoksDefs (.op none none [] [] s :: ds) = (Definition.op none none [] [] s).stoks ++ stoksDefs ds := rfl
+    have hpos : 1 ≤ s.stoks.length := by obtain ⟨sels, o, c⟩ := s; rw [stoks_selSet]; simp
+    have hset : callsSet s + 2 ≤ 4 * s.stoks.length := by
+      obtain ⟨sels, o, c⟩ := s
+      have := callsSels_le sels
+      rw [stoks_selSet]
+      simp only [callsSet, List.length_append, List.length_cons, List.length_nil]
+      omega
+    rw [e, stoks_op_none]
+    simp only [docCalls, callsOpDef, callsDirs, List.length_nil, List.length_append]
+    omega
+  | .op (some t) name vars dirs s :: ds, h => by
+    simp only [wfDefs, Bool.and_eq_true] at h
+    have ih := docCalls_le ds h.2
+    have h2 := callsDirs_le dirs; have h4 := callsSet_le s; have h5 := varDefs_length_le vars
+    have e : stoksDefs (.op (some t) name vars dirs s :: ds) = (Definition.op (some t) name vars dirs s).stoks ++ stoksDefs ds := rfl
+    rw [e, stoks_op_some]
+    cases name <;>
+      (simp only [docCalls, callsOpDef, callsName, Name.stoks, List.length_append, List.length_cons, List.length_nil]; omega)
+
+
 end ApiFu.C12
